@@ -2,6 +2,8 @@
 //! properties: C12 C13
 //! note: FixedLengthReader never reads past the declared length (any inner reader); CounterpartyCommitmentSecrets::write emits exactly the spec serialization (49 x (secret || be64(index)))
 //! trusted: trait Read reduced to read() with the std::io::Read contract (returns at most dest.len(), advances the stream by what it returns); R8: `&mut dest[0..n]` -> slice_range_mut wrapper, `idx.to_be_bytes()` -> u64_to_be_bytes wrapper (be64 uninterpreted, 8 bytes, injective); Writer stub = append-only ghost byte log (write_all appends or fails without writing); R12 for the `for &(ref a, ref b) in ..` loop; `write_tlv_fields!(writer, {})` (empty TLV suffix) is replaced by a stub that appends the spec suffix tlv_empty()
+//! trusted: read side: trait ReadStream = byte sequence + cursor; read_32/read_u64/read_empty_tlv_fields are external_body stubs with the contract of <[u8;32] as Readable>::read, <u64 as Readable>::read (read_exact + from_be_bytes; be64 injective) and read_tlv_fields!(r, {}); R12 rewrites the `for &mut (ref mut a, ref mut b) in arr.iter_mut()` loop into an index loop assigning element by element
+//! plemma: C12 lemma_ccs_roundtrip: the store decoded from the bytes written for s is s (all 49 secrets and indices)
 //! assume: bytes_read <= total_bytes on entry (established by FixedLengthReader::new and preserved by read: proved invariant)
 use vstd::prelude::*;
 verus! {
@@ -120,6 +122,104 @@ impl CounterpartyCommitmentSecrets {
 //@with
     writer.write_all(&idx.to_be_bytes())?; writer.write_all(secret)?;
 //@end
+}
+
+// ---------------- CounterpartyCommitmentSecrets::read vs. the same spec serialization ----------------
+pub trait ReadStream {
+    spec fn data(&self) -> Seq<u8>;
+    spec fn cursor(&self) -> int;
+}
+// <[u8; 32] as Readable>::read and <u64 as Readable>::read (read_exact + from_be_bytes) as assumed contracts over a byte cursor
+#[verifier::external_body]
+pub fn read_32<R: ReadStream>(reader: &mut R) -> (r: Result<[u8; 32], DecodeError>)
+    requires 0 <= old(reader).cursor()
+    ensures final(reader).data() == old(reader).data(),
+        old(reader).cursor() + 32 <= old(reader).data().len() ==> r is Ok,
+        r is Ok ==> old(reader).cursor() + 32 <= old(reader).data().len() && r->Ok_0@ == old(reader).data().subrange(old(reader).cursor(), old(reader).cursor() + 32) && final(reader).cursor() == old(reader).cursor() + 32,
+{ unimplemented!() }
+#[verifier::external_body]
+pub fn read_u64<R: ReadStream>(reader: &mut R) -> (r: Result<u64, DecodeError>)
+    requires 0 <= old(reader).cursor()
+    ensures final(reader).data() == old(reader).data(),
+        old(reader).cursor() + 8 <= old(reader).data().len() ==> r is Ok,
+        r is Ok ==> old(reader).cursor() + 8 <= old(reader).data().len() && be64(r->Ok_0) == old(reader).data().subrange(old(reader).cursor(), old(reader).cursor() + 8) && final(reader).cursor() == old(reader).cursor() + 8,
+{ unimplemented!() }
+#[verifier::external_body]
+pub fn read_empty_tlv_fields<R: ReadStream>(reader: &mut R) -> (r: Result<(), DecodeError>)
+    requires 0 <= old(reader).cursor()
+    ensures final(reader).data() == old(reader).data(), r is Ok ==> final(reader).cursor() >= old(reader).cursor()
+{ unimplemented!() }
+
+impl CounterpartyCommitmentSecrets {
+//@extract lightning/src/ln/chan_utils.rs :: impl Readable for CounterpartyCommitmentSecrets :: fn read
+//@strip io
+//@rw R5
+    <R: Read>
+//@with
+    <R: ReadStream>
+//@rw R12
+    for &mut (ref mut $a:ident, ref mut $b:ident) in old_secrets.iter_mut() { *$a = Readable::read(reader)?; *$b = Readable::read(reader)?; }
+//@with
+    let ghost start = reader.cursor();
+    let mut __i: usize = 0;
+    while __i < 49
+        invariant __i <= 49, reader.data() == old(reader).data(), reader.cursor() == start + 40 * __i, start >= 0,
+            forall|k: int| 0 <= k < __i ==> (#[trigger] old_secrets[k]).0@ == reader.data().subrange(start + 40 * k, start + 40 * k + 32)
+                && be64(old_secrets[k].1) == reader.data().subrange(start + 40 * k + 32, start + 40 * k + 40),
+        decreases 49 - __i
+    {
+        // R12: `for &mut (ref mut secret, ref mut idx) in old_secrets.iter_mut() { *secret = ..; *idx = ..; }` element by element
+        let $a: [u8; 32] = read_32(reader)?;
+        let $b: u64 = read_u64(reader)?;
+        old_secrets[__i] = ($a, $b);
+        __i = __i + 1;
+    }
+//@rw R8
+    read_tlv_fields!(reader, {});
+//@with
+    read_empty_tlv_fields(reader)?;
+//@ret r
+//@requires
+    old(reader).cursor() >= 0
+//@ensures P C12 decoding-yields-exactly-the-49-records-that-were-written
+    r is Ok ==> ({ let st = r->Ok_0; let d = old(reader).data(); let c = old(reader).cursor();
+        forall|k: int| 0 <= k < 49 ==> (#[trigger] st.old_secrets[k]).0@ == d.subrange(c + 40 * k, c + 40 * k + 32)
+            && be64(st.old_secrets[k].1) == d.subrange(c + 40 * k + 32, c + 40 * k + 40) }),
+//@end
+}
+#[verifier::external_body] pub broadcast proof fn ax_be64_inj(x: u64, y: u64) ensures #[trigger] be64(x) == #[trigger] be64(y) ==> x == y {}
+// (P C12) round trip: a store decoded from ser_prefix(s, 49) ++ suffix is s
+pub proof fn lemma_ccs_roundtrip(s: CounterpartyCommitmentSecrets, t: CounterpartyCommitmentSecrets, d: Seq<u8>)
+    requires d.len() >= 1960, d.subrange(0, 1960int) == ser_prefix(s, 49),
+        forall|k: int| 0 <= k < 49 ==> (#[trigger] t.old_secrets[k]).0@ == d.subrange(40 * k, 40 * k + 32) && be64(t.old_secrets[k].1) == d.subrange(40 * k + 32, 40 * k + 40),
+    ensures forall|k: int| 0 <= k < 49 ==> t.old_secrets[k].0@ == (#[trigger] s.old_secrets[k]).0@ && t.old_secrets[k].1 == s.old_secrets[k].1
+{
+    broadcast use ax_be64_len, ax_be64_inj;
+    assert forall|k: int| 0 <= k < 49 implies t.old_secrets[k].0@ == (#[trigger] s.old_secrets[k]).0@ && t.old_secrets[k].1 == s.old_secrets[k].1 by {
+        lemma_prefix_len(s, k); lemma_prefix_len(s, k + 1);
+        lemma_prefix_is_prefix(s, k + 1, 49);
+        let pk = ser_prefix(s, k); let pk1 = ser_prefix(s, k + 1);
+        assert(pk1 == pk + s.old_secrets[k].0@ + be64(s.old_secrets[k].1));
+        assert(d.subrange(0, 40 * (k + 1)) == pk1);
+        assert(d.subrange(40 * k, 40 * k + 32) =~= pk1.subrange(40 * k, 40 * k + 32));
+        assert(pk1.subrange(40 * k, 40 * k + 32) =~= s.old_secrets[k].0@);
+        assert(d.subrange(40 * k + 32, 40 * k + 40) =~= pk1.subrange(40 * k + 32, 40 * k + 40));
+        assert(pk1.subrange(40 * k + 32, 40 * k + 40) =~= be64(s.old_secrets[k].1));
+    }
+}
+pub proof fn lemma_prefix_is_prefix(s: CounterpartyCommitmentSecrets, a: int, b: int)
+    requires 0 <= a <= b <= 49
+    ensures ser_prefix(s, b).len() == 40 * b, ser_prefix(s, a).len() == 40 * a, ser_prefix(s, b).subrange(0, 40 * a) == ser_prefix(s, a)
+    decreases b - a
+{
+    broadcast use ax_be64_len;
+    lemma_prefix_len(s, a); lemma_prefix_len(s, b);
+    if a < b {
+        lemma_prefix_is_prefix(s, a, b - 1);
+        lemma_prefix_len(s, b - 1);
+        assert(ser_prefix(s, b) == ser_prefix(s, b - 1) + s.old_secrets[b - 1].0@ + be64(s.old_secrets[b - 1].1));
+        assert(ser_prefix(s, b).subrange(0, 40 * a) =~= ser_prefix(s, b - 1).subrange(0, 40 * a));
+    } else { assert(ser_prefix(s, b).subrange(0, 40 * a) =~= ser_prefix(s, a)); }
 }
 }
 fn main() {}
